@@ -140,7 +140,10 @@ _orig_getattr = LM.getattr_
 def _getattr(it, o, attr):
     if getattr(it.run, "havoc_fp", False):
         if isinstance(o, Opaque) and attr in ("real", "imag"):
-            return z3.FP(f"hv!{next(it.run.counter)}", F64)
+            r = z3.FP(f"hv!{next(it.run.counter)}", F64)
+            if getattr(it.run, "havoc_finite", False):
+                it.run.assumed.append(finite(r))       # stated hypothesis of the '.fin' obligations: the importance function is a finite number
+            return r
         if is_z3(o) and z3.is_fp(o) and attr in ("real",):
             return o
         if is_z3(o) and z3.is_fp(o) and attr == "size":
@@ -156,7 +159,10 @@ def _binop(it, op, a, b):
     if getattr(it.run, "havoc_fp", False):
         fa, fb = is_z3(a) and z3.is_fp(a), is_z3(b) and z3.is_fp(b)
         if (fa and isinstance(b, Opaque)) or (fb and isinstance(a, Opaque)):
-            return z3.FP(f"hv!{next(it.run.counter)}", F64)        # double (op) unknown quantity: havoc
+            r = z3.FP(f"hv!{next(it.run.counter)}", F64)        # double (op) unknown quantity: havoc
+            if getattr(it.run, "havoc_finite", False):
+                it.run.assumed.append(finite(r))
+            return r
     return _orig_binop(it, op, a, b)
 
 
@@ -169,8 +175,10 @@ PROPS = {   # class -> (step function, kind of window)
 }
 
 
-def step(cls, meth="propagate", pieces_only=False):
-    """C09.w.step / w.dead / w.window / w.shift for one propagator class"""
+def step(cls, meth="propagate", pieces_only=False, finite_ratio=False):
+    """C09.w.step / w.dead / w.window / w.shift for one propagator class.  finite_ratio: the same obligations under the property's hypothesis
+    'finite, non-zero overlaps' in the form 'the real / imaginary part taken of a non-weight quantity is a finite double' (names get '.fin'):
+    under it the continuous-CPMC step is provable, so a change of its constraint / floor / cap tests fails a proof obligation, not only a replay"""
     from vc import front
     q = front.resolve_method("propagation", cls, meth)
     if q is None:
@@ -178,6 +186,7 @@ def step(cls, meth="propagate", pieces_only=False):
 
     def sc(run):
         hv = Havoc(run)
+        run.havoc_finite = bool(finite_ratio)
         try:
             for c in PROPS:          # walker-only helpers are not weight arithmetic: abstracted
                 for m in ("_apply_trotprop", "_multiply_constant"):
@@ -239,7 +248,7 @@ def step(cls, meth="propagate", pieces_only=False):
                     run.prove("shift.finite", finite(sh), note="e_estimate - 0.1 log(.)/dt is finite (|log| <= 800, dt >= 1e-12, |e_estimate| <= 1e300)")
         finally:
             hv.restore()
-    return run_scenario(f"C09.w.{cls}.{meth}", sc, functions=[q], timeout_ms=180000, no_exception="noexc")
+    return run_scenario(f"C09.w.{cls}.{meth}" + (".fin" if finite_ratio else ""), sc, functions=[q], timeout_ms=180000, no_exception="noexc")
 
 
 def init_weights():
